@@ -112,8 +112,30 @@ func (g *Gen) enumPaths() {
 	}
 }
 
+// enumConfReuse: one declared-enum configuration for several documents in a row: declared order and
+// strictness hold for every one of them
+func (g *Gen) enumConfReuse() {
+	conf := &CsvConf{HasTypes: true, Types: []TypeDecl{{Name: toBS("d"), Typ: "enum"}}, HasEnumVals: true,
+		EnumVals: []EnumDecl{{Name: toBS("d"), Vals: bsList([]string{"wed", "tue", "mon"})}}}
+	docs := []string{"d,n\nmon,1\ntue,2\nwed,3\n", "d,n\nwed,1\nmon,2\ntue,7\n", "d,n\ntue,5\nsun,6\n", "d,n\nmon,1\nwed,3\n"}
+	g.begin("enum configuration reused")
+	for _, d := range docs {
+		f := g.do(Step{Op: "ReadCSV", Recv: -1, Doc: toBS(d), Csv: conf})
+		if g.frame(f).Err != nil {
+			continue
+		}
+		g.do(Step{Op: "Sort", Recv: f, Orders: []Order{{Col: toBS("d")}}})
+		for _, c := range []string{"tue", "sun"} {
+			cl := Clause{K: "leaf", Col: toBS("d"), CmpK: "str", Cmp: "<", Arg: &Val{T: "string", S: toBS(c)}}
+			g.do(Step{Op: "Filter", Recv: f, Clause: &cl})
+		}
+	}
+	g.end()
+}
+
 func genC17(g *Gen) {
 	g.enumPaths()
+	g.enumConfReuse()
 	rid := toBS("rid")
 	cards := []int{1, 2, 3, 5, 63, 64, 65, 127, 128, 129, 191, 192, 193, 253, 254, 255, 256, 300}
 	ord := []string{"<", "<=", ">", ">=", "=", "!="}
@@ -206,6 +228,8 @@ func genC17(g *Gen) {
 				a := len(g.x.frames) - 1
 				cl := Clause{K: "leaf", Col: toBS("E"), CmpK: "str", Cmp: g.oneOf(ord), Arg: &Val{T: "string", S: toBS(pickVal())}}
 				g.do(Step{Op: "Filter", Recv: a, Clause: &cl})
+				clu := Clause{K: "leaf", Col: toBS("E"), CmpK: "str", Cmp: g.oneOf(ord), Arg: &Val{T: "string", S: toBS("undeclared")}}
+				g.do(Step{Op: "Filter", Recv: a, Clause: &clu})
 				g.do(Step{Op: "Sort", Recv: a, Orders: []Order{{Col: toBS("E")}}})
 			}
 			g.end()
@@ -226,7 +250,45 @@ func (g *Gen) likeString(maxAtoms int) string {
 	return s
 }
 
+// likeSmall: every arrangement of {"", null, "x", "X"} in up to 4 rows x patterns that match the empty
+// string, a literal, a prefix ... x like / ilike, on a string, a derived enum and a declared enum column
+func (g *Gen) likeSmall() {
+	cells := []*BS{bsp(""), nil, bsp("x"), bsp("X")}
+	pats := []string{"%", "%%", "", ".*", "x", "x%", "%x", "X", "[xy]?", "nope", "%nope%"}
+	for n := 1; n <= 4; n++ {
+		total := 1
+		for i := 0; i < n; i++ {
+			total *= len(cells)
+		}
+		for code := 0; code < total; code++ {
+			if n == 4 && !g.thorough() && g.rng.Intn(4) != 0 {
+				continue
+			}
+			vals := make([]*BS, n)
+			c := code
+			for i := range vals {
+				vals[i] = cells[c%len(cells)]
+				c /= len(cells)
+			}
+			g.begin("like small")
+			f := g.do(Step{Op: "New", Recv: -1, HasOrder: true, ColOrder: bsList([]string{"S", "X", "D"}), HasEnums: true,
+				Enums: []EnumDecl{{Name: toBS("X"), Vals: nil}, {Name: toBS("D"), Vals: bsList([]string{"X", "unused", "", "x"})}},
+				Data:  []ColData{{Name: toBS("S"), Kind: "string", Strs: vals}, {Name: toBS("X"), Kind: "string", Strs: vals}, {Name: toBS("D"), Kind: "string", Strs: vals}}})
+			for k := 0; k < 4; k++ {
+				pat := pats[g.rng.Intn(len(pats))]
+				cmp := g.oneOf([]string{"like", "ilike"})
+				for _, col := range []string{"S", "X", "D"} {
+					cl := Clause{K: "leaf", Col: toBS(col), CmpK: "str", Cmp: cmp, Arg: &Val{T: "string", S: toBS(pat)}}
+					g.do(Step{Op: "Filter", Recv: f, Clause: &cl})
+				}
+			}
+			g.end()
+		}
+	}
+}
+
 func genC18(g *Gen) {
+	g.likeSmall()
 	for rep := 0; rep < g.pick(60, 1500); rep++ {
 		n := []int{1, 3, 8, 20, 60}[g.rng.Intn(5)]
 		pool := []string{}
@@ -240,8 +302,17 @@ func genC18(g *Gen) {
 			}
 		}
 		g.begin("like")
-		f := g.do(Step{Op: "New", Recv: -1, HasOrder: true, ColOrder: bsList([]string{"S", "X"}), HasEnums: true, Enums: []EnumDecl{{Name: toBS("X"), Vals: nil}},
-			Data: []ColData{{Name: toBS("S"), Kind: "string", Strs: vals}, {Name: toBS("X"), Kind: "string", Strs: vals}}})
+		// D: the same cells as an enum with DECLARED values (the pool, duplicates removed, plus one unused)
+		decl, seenD := []string{"unused"}, map[string]bool{"unused": true}
+		for _, p := range pool {
+			if !seenD[p] {
+				seenD[p] = true
+				decl = append(decl, p)
+			}
+		}
+		f := g.do(Step{Op: "New", Recv: -1, HasOrder: true, ColOrder: bsList([]string{"S", "X", "D"}), HasEnums: true,
+			Enums: []EnumDecl{{Name: toBS("X"), Vals: nil}, {Name: toBS("D"), Vals: bsList(decl)}},
+			Data:  []ColData{{Name: toBS("S"), Kind: "string", Strs: vals}, {Name: toBS("X"), Kind: "string", Strs: vals}, {Name: toBS("D"), Kind: "string", Strs: vals}}})
 		if g.rng.Intn(3) == 0 {
 			f = g.derive(f)
 		}
@@ -272,7 +343,7 @@ func genC18(g *Gen) {
 				base = upperLower(base, g.rng.Intn(2) == 0)
 			}
 			cmp := g.oneOf([]string{"like", "ilike", "ilike"})
-			for _, col := range []string{"S", "X"} {
+			for _, col := range []string{"S", "X", "D"} {
 				cl := Clause{K: "leaf", Col: toBS(col), CmpK: "str", Cmp: cmp, Arg: &Val{T: "string", S: toBS(base)}, Inv: g.rng.Intn(6) == 0}
 				g.do(Step{Op: "Filter", Recv: f, Clause: &cl})
 			}
@@ -289,7 +360,7 @@ func genC18(g *Gen) {
 				}
 				pat = g.oneOf([]string{"", "%"}) + pat + g.oneOf([]string{"", "%"})
 				seq := [][]string{{"like", "ilike", "like"}, {"ilike", "like", "ilike"}}[g.rng.Intn(2)]
-				col := g.oneOf([]string{"S", "X"})
+				col := g.oneOf([]string{"S", "X", "D"})
 				for _, c := range seq {
 					cl := Clause{K: "leaf", Col: toBS(col), CmpK: "str", Cmp: c, Arg: &Val{T: "string", S: toBS(pat)}}
 					g.do(Step{Op: "Filter", Recv: f, Clause: &cl})
